@@ -29,9 +29,27 @@ def benign():
         cr = m.get("check_result", {})
         rows.append("| %s | %s :: %s | %s | %s |" % (i, m.get("file"), m.get("function"), m.get("kind", "")[:60], " ".join("%s=%s" % (p, r["verdict"]) for p, r in sorted(cr.items()))))
     return "\n".join(rows)
+def props():
+    import sys
+    sys.path.insert(0, V)
+    import specs
+    rows = ["| id | units | functions under contract | obligations discharged | solver s | what the contracts state (MANIFEST level text) |", "|---|---|---|---|---|---|"]
+    for pid in sorted(specs.PROPERTIES):
+        ev = {}
+        try:
+            ev = json.load(open(os.path.join(V, "evidence", pid + ".json")))
+        except Exception:
+            pass
+        c = ev.get("coverage", {})
+        m = re.search(r"units: ([^;]*);", c.get("checker_cmd", ""))
+        rows.append("| %s | %s | %s | %s/%s | %s | %s |" % (pid, (m.group(1) if m else "").replace(",", ", "), len(c.get("functions_under_contract", [])), c.get("discharged", "?"), c.get("obligations", "?"),
+                                                      c.get("solver_s", "?"), specs.PROPERTIES[pid]["scope"].replace("|", "/")))
+    for pid, why in sorted(specs.NOT_APPLICABLE.items()):
+        rows.append("| %s | — | — | — | — | not applicable: %s |" % (pid, why.replace("|", "/")))
+    return "\n".join(rows)
 p = os.path.join(V, "DESIGN.md")
 s = open(p).read()
-for name, fn in (("SEEDED_TABLE", seeded), ("BENIGN_TABLE", benign)):
+for name, fn in (("SEEDED_TABLE", seeded), ("BENIGN_TABLE", benign), ("PROPERTY_TABLE", props)):
     b, e = "<!-- %s_BEGIN -->" % name, "<!-- %s_END -->" % name
     if name in s and b not in s:
         s = s.replace(name, b + "\n" + e, 1)
